@@ -50,6 +50,24 @@ impl Action {
 	pub const SELL_ALL: Action = Action::Sell(255);
 }
 
+// `x.into()` / `Action::from(x)` for the two source types indicators use (R12: resolved through a local trait)
+pub trait IntoAction: Sized { spec fn action_s(self) -> Action; fn into_action(self) -> (r: Action) ensures r == self.action_s(); }
+impl IntoAction for i8 {
+	open spec fn action_s(self) -> Action { Action::of_i8(self as int) }
+	fn into_action(self) -> (r: Action) { Action::from_i8(self) }
+}
+impl IntoAction for R {
+	open spec fn action_s(self) -> Action { action_of_real(self@) }
+	fn into_action(self) -> (r: Action) { Action::from_f(self) }
+}
+impl IntoAction for Action {
+	open spec fn action_s(self) -> Action { self }
+	fn into_action(self) -> (r: Action) { self }
+}
+impl Action {
+	pub fn from_any<T: IntoAction>(x: T) -> (r: Action) ensures r == x.action_s() { x.into_action() }
+}
+
 // ------------------------------------------------------------------ crossing detectors (methods/cross.rs)
 //@extract src/methods/cross.rs struct:CrossAbove keepderive
 //@end
